@@ -734,3 +734,192 @@ Proof.
   - rewrite get_mb_set_mb_eq by auto. cbn. auto.
   - rewrite !get_mb_wake. rewrite get_mb_set_mb_eq by auto. cbn. auto.
 Qed.
+
+(* ---------- a killed mailbox stays killed, and no region on it blocks ---------- *)
+Definition not_waiting (p : pc) : Prop :=
+  match p with PGateWait _ | PReadWait | PSendWait _ _ _ => False | _ => True end.
+Lemma plain_not_waiting p : plain_pc p -> not_waiting p.
+Proof. destruct p; cbn; auto. Qed.
+
+Definition mb_mono (m m' : mbox) : Prop :=
+  (mb_killed m = true -> mb_killed m' = true) /\ (mb_fkilled m = true -> mb_fkilled m' = true).
+Definition st_mono (st st' : nstate) : Prop := forall k, mb_mono (get_mb st k) (get_mb st' k).
+
+Lemma mb_mono_refl m : mb_mono m m. Proof. split; auto. Qed.
+Lemma st_mono_refl st : st_mono st st. Proof. intros k. apply mb_mono_refl. Qed.
+Lemma st_mono_trans a b c : st_mono a b -> st_mono b c -> st_mono a c.
+Proof. intros H1 H2 k. destruct (H1 k), (H2 k). split; auto. Qed.
+Lemma st_mono_set_th st i t : st_mono st (set_th st i t). Proof. intros k. apply mb_mono_refl. Qed.
+Lemma st_mono_wake f j st : st_mono st (wake f j st). Proof. intros k. apply mb_mono_refl. Qed.
+Lemma st_mono_set_mb st j m' : mb_mono (get_mb st j) m' -> st_mono st (set_mb st j m').
+Proof.
+  intros H k. destruct (Nat.eq_dec j k) as [->|Hne].
+  - destruct (get_mb_set_mb_cases st k m') as [[_ E] | [_ [E _]]]; rewrite E; auto using mb_mono_refl.
+  - rewrite get_mb_set_mb_neq by auto. apply mb_mono_refl.
+Qed.
+Lemma st_mono_maybe_wake_gate j st : st_mono st (maybe_wake_gate j st).
+Proof. unfold maybe_wake_gate. destruct (_ && _); auto using st_mono_refl, st_mono_wake. Qed.
+
+Lemma st_mono_kill_mb st j c : st_mono st (kill_mb st j c).
+Proof.
+  unfold kill_mb. cbn [mb_killed set_fkilled]. destruct (mb_killed (get_mb st j)) eqn:Ek.
+  - apply st_mono_set_mb. split; cbn; auto.
+  - eapply st_mono_trans; [|apply st_mono_wake]. eapply st_mono_trans; [|apply st_mono_wake].
+    eapply st_mono_trans; [|apply st_mono_wake]. apply st_mono_set_mb. split; cbn; auto.
+Qed.
+
+Section Mono.
+Variable nt : net.
+Variable tid : nat.
+
+Lemma st_mono_read_region resume st t : st_mono st (read_region nt tid resume st t).
+Proof.
+  unfold read_region.
+  destruct (has_msg _ _ || mb_killed _).
+  - destruct (mb_killed _).
+    + eapply st_mono_trans; [|apply st_mono_set_th]. apply st_mono_set_mb. split; cbn; auto.
+    + destruct (take_from _ _ _) as [[ms n'] last].
+      eapply st_mono_trans; [|apply st_mono_set_th]. eapply st_mono_trans; [|apply st_mono_wake].
+      eapply st_mono_trans; [|apply st_mono_maybe_wake_gate]. apply st_mono_set_mb. split; cbn; auto.
+  - destruct resume; [apply st_mono_set_th|].
+    eapply st_mono_trans; [|apply st_mono_set_th]. eapply st_mono_trans; [|apply st_mono_maybe_wake_gate].
+    apply st_mono_set_mb. split; cbn; auto.
+Qed.
+
+Lemma st_mono_after_send st t oi mg closing : st_mono st (after_send nt tid st t oi mg closing).
+Proof.
+  unfold after_send. eapply st_mono_trans; [|apply st_mono_set_th].
+  destruct closing; [|apply st_mono_refl]. apply st_mono_set_mb. split; cbn; auto.
+Qed.
+
+Lemma st_mono_do_push st t oi mg closing : st_mono st (do_push nt tid st t oi mg closing).
+Proof.
+  unfold do_push. eapply st_mono_trans; [|apply st_mono_after_send].
+  eapply st_mono_trans; [|apply st_mono_wake]. apply st_mono_set_mb. split; cbn; auto.
+Qed.
+
+Lemma st_mono_send_region resume st t oi mg closing : st_mono st (send_region nt tid resume st t oi mg closing).
+Proof.
+  unfold send_region.
+  destruct resume.
+  - destruct (mb_can_write _); [|apply st_mono_set_th].
+    destruct (mb_killed _); [destruct (mb_fkilled _); auto using st_mono_set_th, st_mono_after_send | apply st_mono_do_push].
+  - destruct (mb_closed _); [apply st_mono_set_th|]. destruct (mb_fkilled _); [apply st_mono_set_th|].
+    destruct (mb_killed _); [apply st_mono_after_send|].
+    destruct (mb_can_write _); [apply st_mono_do_push | apply st_mono_set_th].
+Qed.
+
+Lemma st_mono_gate_region resume st t oi : st_mono st (gate_region nt tid resume st t oi).
+Proof.
+  unfold gate_region. destruct (mb_can_fetch _).
+  - destruct (t_kind t); try apply st_mono_set_th. destruct (next_gate _ _ _); apply st_mono_set_th.
+  - destruct resume; apply st_mono_set_th.
+Qed.
+
+Lemma st_mono_thread_step st t : st_mono st (thread_step nt tid st t).
+Proof.
+  unfold thread_step. destruct (t_pc t); try apply st_mono_refl;
+    auto using st_mono_gate_region, st_mono_read_region, st_mono_send_region.
+  - unfold killout_region. eapply st_mono_trans; [apply st_mono_kill_mb | apply st_mono_set_th].
+  - unfold killin_region. eapply st_mono_trans; [apply st_mono_kill_mb | apply st_mono_set_th].
+  - unfold killall_region. eapply st_mono_trans; [apply st_mono_kill_mb | apply st_mono_set_th].
+Qed.
+
+Lemma st_mono_settle st : st_mono st (settle nt tid st).
+Proof.
+  unfold settle. destruct (t_pc (get_th st tid)); try apply st_mono_refl.
+  destruct (first_alive _ _ _); apply st_mono_set_th.
+Qed.
+
+Lemma get_th_set_th_eq st i t : i < length (ths st) -> get_th (set_th st i t) i = t.
+Proof. intros H. unfold get_th, set_th. cbn. apply nth_upd_eq. auto. Qed.
+
+(* no region on a killed mailbox leaves the thread waiting *)
+Lemma read_killed_no_block resume st t :
+  tid < length (ths st) -> mb_killed (get_mb st (r_mb (cur_r t))) = true ->
+  not_waiting (t_pc (get_th (read_region nt tid resume st t) tid)).
+Proof.
+  intros Ht Hk. unfold read_region. rewrite Hk, orb_true_r.
+  rewrite get_th_set_th_eq by (rewrite ths_set_mb; auto).
+  apply plain_not_waiting. apply on_input_killed_plain.
+Qed.
+
+Lemma loop_start_not_waiting st t : not_waiting (t_pc (loop_start nt tid st t)).
+Proof.
+  unfold loop_start. destruct (t_kind t); try (apply plain_not_waiting; apply consume_plain).
+  - destruct (mb_lazy _); [cbn; auto | apply plain_not_waiting; apply consume_plain].
+  - destruct (next_gate _ _ _); [cbn; auto | apply plain_not_waiting; apply consume_plain].
+Qed.
+
+Lemma after_send_not_waiting st t oi mg closing :
+  tid < length (ths st) -> not_waiting (t_pc (get_th (after_send nt tid st t oi mg closing) tid)).
+Proof.
+  intros Ht. unfold after_send. rewrite get_th_set_th_eq.
+  - destruct (S oi <? n_outs t); [cbn; auto|]. destruct closing; [cbn; auto|]. apply loop_start_not_waiting.
+  - destruct closing; [rewrite ths_set_mb|]; auto.
+Qed.
+
+Lemma send_killed_no_block resume st t oi mg closing :
+  tid < length (ths st) -> mb_killed (get_mb st (out_mb t oi)) = true ->
+  not_waiting (t_pc (get_th (send_region nt tid resume st t oi mg closing) tid)).
+Proof.
+  intros Ht Hk. unfold send_region. unfold mb_can_write. rewrite Hk, orb_true_r.
+  assert (Hr : forall e, not_waiting (t_pc (get_th (set_th st tid (send_raise nt t closing e)) tid))).
+  { intros e. rewrite get_th_set_th_eq by auto. apply plain_not_waiting. apply send_raise_plain. }
+  destruct resume.
+  - destruct (mb_fkilled _); auto using after_send_not_waiting.
+  - destruct (mb_closed _); auto. destruct (mb_fkilled _); auto using after_send_not_waiting.
+Qed.
+
+Lemma gate_killed_no_block resume st t oi :
+  tid < length (ths st) -> mb_killed (get_mb st (out_mb t oi)) = true ->
+  not_waiting (t_pc (get_th (gate_region nt tid resume st t oi) tid)).
+Proof.
+  intros Ht Hk. unfold gate_region. unfold mb_can_fetch. rewrite Hk.
+  destruct (t_kind t); try (rewrite get_th_set_th_eq by auto; apply plain_not_waiting; apply consume_plain).
+  destruct (next_gate _ _ _); rewrite get_th_set_th_eq by auto; [cbn; auto | apply plain_not_waiting; apply consume_plain].
+Qed.
+End Mono.
+
+Theorem killed_stable_step nt st tid st' j :
+  nstep nt st tid = Some st' -> mb_killed (get_mb st j) = true -> mb_killed (get_mb st' j) = true.
+Proof.
+  unfold nstep. destruct (nth_error (ths st) tid) as [t|]; [|discriminate].
+  destruct (t_enabled nt st t); [|discriminate]. intros H Hk. inversion H; subst st'.
+  pose proof (st_mono_trans _ _ _ (st_mono_thread_step nt tid st t) (st_mono_settle nt tid _) j) as [Hm _]. auto.
+Qed.
+
+Theorem killed_stable nt sched : forall st st' j,
+  nrun nt st sched = Some st' -> mb_killed (get_mb st j) = true -> mb_killed (get_mb st' j) = true.
+Proof.
+  induction sched as [|t s IH]; intros st st' j H Hk; cbn in H.
+  - inversion H; subst; auto.
+  - destruct (nstep nt st t) eqn:E; [|discriminate]. eapply IH; eauto. eapply killed_stable_step; eauto.
+Qed.
+
+(* ---------- summary ---------- *)
+Theorem kill_wakes_everyone nt boxes threads sched st :
+  (forall t, In t threads -> plain_pc (t_pc t)) -> (forall m, In m boxes -> mb_box m = []) ->
+  nrun nt (ninit nt boxes threads) sched = Some st ->
+  (forall i t j, nth_error (ths st) i = Some t -> waits_on t j -> mb_killed (get_mb st j) = true -> t_woken t = true) /\
+  (forall j c, j < length (mbs st) ->
+     mb_killed (get_mb (kill_mb st j c) j) = true /\ mb_fkilled (get_mb (kill_mb st j c) j) = true) /\
+  (forall sched' st' j, nrun nt st sched' = Some st' -> mb_killed (get_mb st j) = true -> mb_killed (get_mb st' j) = true) /\
+  (forall tid t resume, tid < length (ths st) -> mb_killed (get_mb st (r_mb (cur_r t))) = true ->
+     not_waiting (t_pc (get_th (read_region nt tid resume st t) tid))) /\
+  (forall tid t resume oi mg closing, tid < length (ths st) -> mb_killed (get_mb st (out_mb t oi)) = true ->
+     not_waiting (t_pc (get_th (send_region nt tid resume st t oi mg closing) tid))) /\
+  (forall tid t resume oi, tid < length (ths st) -> mb_killed (get_mb st (out_mb t oi)) = true ->
+     not_waiting (t_pc (get_th (gate_region nt tid resume st t oi) tid))).
+Proof.
+  intros Ht Hm Hrun. pose proof (Wn_reachable _ _ _ _ _ Ht Hm Hrun) as HW.
+  split; [intros; eapply killed_waiter_woken; eauto|].
+  split; [intros; apply kill_mb_killed; auto|].
+  split; [intros; eapply killed_stable; eauto|].
+  split; [intros; apply read_killed_no_block; auto|].
+  split; [intros; apply send_killed_no_block; auto | intros; apply gate_killed_no_block; auto].
+Qed.
+
+(* the hypotheses are met by the networks built with mk_thread / mk_mbox *)
+Lemma mk_thread_plain k ins : plain_pc (t_pc (mk_thread k ins)). Proof. cbn. auto. Qed.
+Lemma mk_mbox_empty c l d : mb_box (mk_mbox c l d) = []. Proof. reflexivity. Qed.
